@@ -2340,6 +2340,17 @@ def _char_case(lower):
             return BV.const(c, 32), st
         if isinstance(v, Ite):
             return I.merge(v.c, h(I, st, fr, t, [v.a])[0], h(I, st, fr, t, [v.b])[0]), st
+        if isinstance(v, BV) and v.w == 32:
+            unk = [j for j, b in enumerate(v.bits) if b.kind != 'c']
+            if len(unk) <= 7:
+                # a character that is one of a few constants merged bit by bit: map every candidate value
+                base = sum(1 << j for j, b in enumerate(v.bits) if b is C1)
+                out = None
+                for m in range(1 << len(unk)):
+                    val = base | sum((1 << unk[j]) for j in range(len(unk)) if (m >> j) & 1)
+                    r = h(I, st, fr, t, [BV.const(val, 32)])[0]
+                    out = r if out is None else I.merge(I.eq_const_bit(v, val), r, out)
+                return out, st
         return typed_opaque(I, st, fr, t, a)
     return h
 
@@ -2398,3 +2409,50 @@ def drain4(I, st, it):
 
 drain = drain4
 _mod.drain = drain4
+
+
+@summary('core::slice::<impl [T]>::chunks', 'core::slice::<impl [T]>::chunks_exact')
+def slice_chunks(I, st, fr, t, a):
+    v = I.deref(st, a[0]) if isinstance(a[0], Ref) else a[0]
+    n = a[1]
+    if isinstance(v, Seq) and all(x[0] == 'elem' for x in v.items) and isinstance(n, BV) and n.known() and n.uval() > 0:
+        k = n.uval()
+        items = []
+        exact = (t.get('res') or {}).get('path', '').endswith('chunks_exact')
+        for i in range(0, len(v.items), k):
+            part = v.items[i:i + k]
+            if exact and len(part) < k:
+                break
+            cell = ('static', 'chunk:%d' % next(I.frame_counter))
+            st.store[cell] = Seq([('elem', I.deref(st, x[1]) if isinstance(x[1], Ref) else x[1]) for x in part])
+            items.append(('elem', Ref(cell)))
+        cell = ('static', 'chunks:%d' % next(I.frame_counter))
+        st.store[cell] = Seq(items)
+        key = (fr.fname, t['at'], (t.get('res') or {}).get('path', ''))       # chunk size is a non-zero constant: cannot panic
+        I.asserts_ok[key] = I.asserts_ok.get(key, 0) + 1
+        return Struct('$SliceIter', (Ref(cell), 0, 'owned')), st
+    raise from_undecided()('chunks of %r' % (v,))
+
+
+_into_iter_before = TABLE['<I as std::iter::IntoIterator>::into_iter']
+
+
+def into_iter_ref(I, st, fr, t, a):
+    v = a[0]
+    if isinstance(v, Ref):
+        tgt = I.deref(st, v)
+        if isinstance(tgt, Seq):
+            # `for x in &slice` / `for x in &vec`: a by-reference iterator over the sequence
+            return Struct('$SliceIter', (v, 0, None)), st
+    return _into_iter_before(I, st, fr, t, a)
+
+
+TABLE['<I as std::iter::IntoIterator>::into_iter'] = into_iter_ref
+for _k in ("<&'a [T] as std::iter::IntoIterator>::into_iter", "<&'a std::vec::Vec<T, A> as std::iter::IntoIterator>::into_iter",
+           "<&[T] as std::iter::IntoIterator>::into_iter"):
+    TABLE[_k] = into_iter_ref
+
+for _k in ("core::slice::iter::<impl std::iter::IntoIterator for &'a [T]>::into_iter",
+           "alloc::vec::<impl std::iter::IntoIterator for &'a std::vec::Vec<T, A>>::into_iter",
+           "std::vec::<impl std::iter::IntoIterator for &'a std::vec::Vec<T, A>>::into_iter"):
+    TABLE[_k] = into_iter_ref
